@@ -26,7 +26,7 @@ for p in props:
         'level_claimed': {
             'category': meta['level'],
             'text': MM.LEVEL_TEXT.get(pid) or (
-                'Decides the clauses ' + '; '.join(['D0 names resolve in the anchored modules', 'DM run-time module state is a sound memo / decorators are transparent on the reachable functions', 'DP four syntactic Python pitfalls absent from the reachable functions'] + list(meta.get('decided', []))) +
+                'Decides the clauses ' + '; '.join(['D0 names resolve in the anchored modules', 'DM run-time module state is a sound memo / decorators are transparent on the reachable functions', 'DP syntactic Python pitfalls absent from the reachable functions', 'DX the premise clauses of collaborating properties (txsa/premises.py)'] + list(meta.get('decided', []))) +
                 ' on every path/instance of the current tree. A pass means every decided clause holds; it never '
                 'means the whole behavioural statement was established. Not decided: ' +
                 '; '.join(meta.get('undecided', []))),
